@@ -1009,6 +1009,32 @@ func stringScannerRuleSSA(r *Run, rule string) {
 		r.Lost(rule, lm.why())
 		return
 	}
+	// the quoting characters are exactly " and `: a token arm that runs a scanner which stops ON a closing
+	// byte (and so reads across %>, newlines and comment ends until it finds it) for any other first byte
+	// makes that byte a quote everywhere inside tags - in comments and in code that was inert before
+	var extra []byte
+	for _, g := range lm.groups(lm.inside, true) {
+		quotes := false
+		for _, p := range g.paths {
+			if contains(p.scans, "on") {
+				quotes = true
+			}
+		}
+		if !quotes {
+			continue
+		}
+		for _, b := range g.bytes {
+			if b != '"' && b != '`' {
+				extra = append(extra, b)
+			}
+		}
+	}
+	if len(extra) == 0 {
+		r.Ok(rule, ssaName(lm.inside), "quoting characters are \" and `", w.Pos(lm.inside.Pos()), "no other first byte runs a scanner that stops on a closing byte")
+	} else {
+		r.Bad(rule, ssaName(lm.inside), fmt.Sprintf("quoting character(s) %q", string(extra)), w.Pos(lm.inside.Pos()),
+			"a byte other than \" and ` opens a quoted string: inside tags - also inside <%# comments %> - that byte was inert, now it swallows everything up to its partner, including %> and the text and tags behind it")
+	}
 	for _, q := range []byte{'"', '`'} {
 		kind := map[byte]string{'"': "double-quoted", '`': "back-quoted"}[q]
 		var scan *ssa.Function
